@@ -333,7 +333,7 @@ func (f *advFacts) end(gen int) time.Duration {
 }
 
 func advDetail(c *advCase, ev []vfake.Event) map[string]any {
-	return map[string]any{"case": c, "trace": vfake.Strings(vOnly(ev, "write_begin", "write_end", "read_deliver", "read_error", "read_timeout", "cancel", "dial", "link_event", "run_return", "flip_forwarding", "terminate_read", "hook_inconsistent", "watch_close"), 120)}
+	return map[string]any{"case": c, "trace": vfake.Strings(vOnly(ev, "enqueue", "write_begin", "write_end", "read_deliver", "read_error", "read_timeout", "cancel", "dial", "link_event", "run_return", "flip_forwarding", "terminate_read", "hook_inconsistent", "watch_close"), 120)}
 }
 
 // advContent checks that every transmitted RA is what the configuration calls
@@ -377,11 +377,39 @@ func advContent(r *vlib.Run, c *advCase, res *advResult, exp *model.ExpIface) bo
 	return true
 }
 
+// advTaken is the bounded-progress oracle of the listener: every scripted
+// input queued on a connection is taken within one virtual second, unless the
+// generation stopped being served before that.
+func advTaken(r *vlib.Run, c *advCase, res *advResult) bool {
+	f := advAnalyze(c, res.ev)
+	taken := map[string]bool{}
+	for _, e := range res.ev {
+		switch e.Kind {
+		case "read_deliver", "read_error":
+			taken[fmt.Sprintf("%d/%d", e.Gen, e.ID)] = true
+		}
+	}
+	for _, e := range res.ev {
+		if e.Kind != "enqueue" || taken[fmt.Sprintf("%d/%d", e.Gen, e.ID)] {
+			continue
+		}
+		if e.T+time.Second > f.end(e.Gen) {
+			continue
+		}
+		r.Violation(c.ID, "listener-stopped-reading", fmt.Sprintf("input %d queued at %v on generation %d was never read although the task kept running until %v: the interface is deaf", e.ID, e.T, e.Gen, f.end(e.Gen)), advDetail(c, res.ev))
+		return false
+	}
+	return true
+}
+
 // advC07 is the exactly-once / destination / timing / conservation oracle.
 func advC07(r *vlib.Run, c *advCase, res *advResult) {
 	ev := res.ev
 	f := advAnalyze(c, ev)
 	det := func() map[string]any { return advDetail(c, ev) }
+	if !advTaken(r, c, res) {
+		return
+	}
 	type rsRec struct {
 		t       time.Duration
 		gen     int
@@ -453,7 +481,9 @@ func advC07(r *vlib.Run, c *advCase, res *advResult) {
 			if d < 0 {
 				continue
 			}
-			if vTiming && d >= maxRADelay {
+			// The delay is drawn from [0,500ms); the injected State-read latency
+			// passes between the end of the delay and write_begin.
+			if vTiming && d >= maxRADelay+c.FwdLat {
 				continue
 			}
 			rs.matched, found = true, true
@@ -476,7 +506,7 @@ func advC07(r *vlib.Run, c *advCase, res *advResult) {
 			if rs.matched {
 				continue
 			}
-			if rs.t+maxRADelay > f.end(rs.gen) {
+			if rs.t+maxRADelay+c.FwdLat > f.end(rs.gen) {
 				r.Count("rs_unanswered_because_stopped", 1)
 				continue // stopped or re-initialised before it was due
 			}
